@@ -76,11 +76,13 @@ Module GMM (S : TRANSC).
   (* gmm.py:882-921 ml_gmm_m_step.  [eps] = mean_var_update_threshold. *)
   Definition ml_vars_updated_means (st : stats) (tn : list T) (mu : list (list T)) :=
     map3 (fun sxx n m => map2 (fun a b => sub (div a n) (mul b b)) sxx m) (s_pxx st) tn mu.
-  (* frozen means: E[(x-mu)^2] = (sum_pxx - 2 mu sum_px)/n + mu^2 *)
+  (* frozen means: E[(x-mu)^2] = (sum_pxx - 2 mu sum_px + mu^2 n) / max(n, eps): the responsibility-weighted sum of
+     squared deviations over the floored count (a component without responsibility gets 0, i.e. its floor) *)
   Definition ml_vars_frozen_means (st : stats) (tn : list T) (mu : list (list T)) :=
-    map3 (fun sxx_sx n m =>
-            map3 (fun a s b => add (div (sub a (mul (mul (add one one) b) s)) n) (mul b b)) (fst sxx_sx) (snd sxx_sx) m)
-         (combine (s_pxx st) (s_px st)) tn mu.
+    map3 (fun sxx_sx tn_n m =>
+            map3 (fun a s b => div (add (sub a (mul (mul (add one one) b) s)) (mul (mul b b) (snd tn_n))) (fst tn_n))
+                 (fst sxx_sx) (snd sxx_sx) m)
+         (combine (s_pxx st) (s_px st)) (combine tn (s_n st)) mu.
   Definition ml_m_step (sw : switches) (eps : T) (st : stats) (mc : machine) : machine :=
     let tn := map (fun n => fmax n eps) (s_n st) in                 (* np.clip(n, eps, None) *)
     let mc1 := if upd_ws sw then set_ws mc (map (fun n => div n (ofnat (s_t st))) tn) else mc in
